@@ -20,21 +20,23 @@ VARIABLES l,      \* next line
 
 mvars == <<l, obs, run, out>>
 
-DefaultCfg == [cap |-> 1, batch |-> 0, dqbatch |-> 0, retry |-> 0, dq |-> FALSE, gaps |-> FALSE]
+DefaultCfg == [cap |-> 1, batch |-> 0, dqbatch |-> 0, retry |-> 0, dq |-> FALSE, gaps |-> FALSE, retention |-> 0, mult10 |-> 10]
 
 Apply(o, t) ==
-  CASE t.ev = "Reset"     -> ObsNew([cap |-> t.cap, batch |-> t.batch, dqbatch |-> t.dqbatch, retry |-> t.retry, dq |-> t.dq, gaps |-> t.gaps])
+  CASE t.ev = "Reset"     -> ObsNew([cap |-> t.cap, batch |-> t.batch, dqbatch |-> t.dqbatch, retry |-> t.retry, dq |-> t.dq, gaps |-> t.gaps, retention |-> t.retention, mult10 |-> t.mult10])
     [] t.ev = "InCall"    -> OInCall(o, t.id, t.src, t.stream, t.off, t.idx)
     [] t.ev = "Own"       -> IF t.id \in Ev THEN OOwn(o, t.id, t.obj) ELSE o
     [] t.ev = "InRet"     -> OInRet(o, t.id, t.ok)
     [] t.ev = "DoRet"     -> IF t.id \in Ev THEN ODo(o, t.id, t.res) ELSE o
     [] t.ev = "Propagate" -> OPropagate(o, t.id)
+    [] t.ev = "Corrupt"   -> [o EXCEPT !.viol = @ \cup {V("payload_of_other_event", t.id, t.seen, t.b, "")}]
+    [] t.ev = "Spawn"     -> OSpawn(o, t.id, t.kids)
     [] t.ev = "Out"       -> OAdd(o, t.b, t.id)
-    [] t.ev = "SendCall"  -> OSendCall(o, t.b, t.seq, t.ids)
+    [] t.ev = "SendCall"  -> OSendCall(o, t.b, t.seq, t.ids, t.t)
     [] t.ev = "SendBytes" -> OSendBytes(o, t.b, t.first, t.total, t.last, t.limit)
     [] t.ev = "Stale"     -> OStale(o, t.b, t.first, t.waited, t.bound)
     [] t.ev = "ParentSent" -> [o EXCEPT !.viol = @ \cup {V("parent_sent", t.id, 0, t.b, "")}]
-    [] t.ev = "SendRet"   -> OSendRet(o, t.b, t.ids, t.ok)
+    [] t.ev = "SendRet"   -> OSendRet(o, t.b, t.ids, t.ok, t.t)
     [] t.ev = "GiveUp"    -> OGiveUp(o, t.b, t.ids)
     [] t.ev = "Fail"      -> OFail(o, t.id)
     [] t.ev = "BCommit"   -> OBatchCommit(o, t.b, t.id, t.nosend)
